@@ -1,4 +1,5 @@
 import RR.Proof.HdlcTable
+import RR.Proof.HdlcRoundtrip
 
 /-!
 # C13 — HDLC deframer: every valid frame is recovered, nothing invalid is emitted
@@ -74,6 +75,36 @@ theorem c13_bounds (cfg : Cfg) (bits : List Nat) (bit : Nat) (hb : bit ≠ 1) :
 /-- Seven ones in a row abort the frame: nothing is emitted. -/
 theorem c13_abort (cfg : Cfg) (bits : List Nat) :
     step cfg (.finalCheck bits) 1 = (.unsynced 0xff, none) := by simp [step]
+
+/-- **Round trip, every payload.** For every payload of byte values within the
+configured size limits, the bits the transmitter sends (flag, LSB-first bytes,
+CRC-16/X.25 low byte first, bit stuffing, flag) make the deframer — from its
+initial state — deliver exactly that payload, once, and leave it right after a
+flag. (Chunking is immaterial to the model: `run` is bit-serial; the block's
+work loop is tied by the chunked correspondence.) -/
+theorem c13_roundtrip (cfg : Cfg) (p : List Nat) (hp : ∀ b ∈ p, b < 256)
+    (hs : cfg.stripChecksum = true) (hmin : cfg.minSize ≤ p.length + 2) (hmax : p.length + 2 ≤ cfg.maxSize) :
+    run cfg init (frame p) = (.synced 0 [], [p]) := by
+  have : frame p = flag ++ body p := by simp [frame, body, List.append_assoc]
+  rw [this, run_append, run_opening, run_body cfg p hp hs hmin hmax]
+  rfl
+
+/-- **Any number of frames**, back to back with shared flags or separated by
+any number of extra flags: exactly the payloads, in order, each once. -/
+theorem c13_frames (cfg : Cfg) (hs : cfg.stripChecksum = true) (ps : List (List Nat × Nat))
+    (hps : ∀ q ∈ ps, (∀ b ∈ q.1, b < 256) ∧ cfg.minSize ≤ q.1.length + 2 ∧ q.1.length + 2 ≤ cfg.maxSize) :
+    run cfg init (flag ++ ps.flatMap fun q => body q.1 ++ (List.replicate q.2 flag).flatten) =
+      (.synced 0 [], ps.map (·.1)) := by
+  rw [run_append, run_opening, run_bodies cfg hs ps hps]
+  rfl
+
+/-- Destuffing inverts stuffing: the stuffed form of any bit string is collected as that string. -/
+theorem c13_destuff (cfg : Cfg) (d : List Nat) (hd : ∀ b ∈ d, b ≤ 1) (hl : d.length ≤ cfg.maxSize * 8 + 7) :
+    ∃ ones, run cfg (.synced 0 []) (stuff d) = (.synced ones d.reverse, []) := by
+  obtain ⟨o, _, h⟩ := run_stuffed cfg d hd 0 [] (by omega) (by simpa using hl)
+  refine ⟨o, ?_⟩
+  have := h []
+  simpa [stuff, run] using this
 
 /-! Non-vacuity: the frame of payload `[0x41]` is recovered, after noise that leaves the deframer
 mid-frame, with the opening flag shared with the garbage frame. -/
